@@ -435,6 +435,43 @@ def envcopy_case(ctx, case):
         b = env2.generator(batch_size=[3])
         ctx.evaluation()
         same_td(ctx, dict(sig, what="generator"), a, b, f"generator of the {how} copy")
+    # history: an env that has already served k batches. Its pickled state carries the state of its random stream
+    # (RL4COEnvBase.__getstate__), so the restored env continues with the batch the original serves next; and taking a deep
+    # copy must leave the original's stream where it was (control: the same history without the copy)
+    for k in case.get("hist", (0, 2)):
+        torch.manual_seed(seed + 11)
+        for _ in range(k):
+            env.generator(batch_size=[2])
+        want = env.generator(batch_size=[3])  # control: what the env serves after k batches
+        torch.manual_seed(seed + 11)
+        for _ in range(k):
+            env.generator(batch_size=[2])
+        try:
+            blob = pickle.dumps(env)
+            nxt = env.generator(batch_size=[3])
+            env_p = pickle.loads(blob)
+            got = env_p.generator(batch_size=[3])
+        except Exception as e:
+            ctx.evaluation()
+            ctx.violation(dict(kind="envcopy", env=name, how="pickle", q="raises", exc=type(e).__name__), f"pickling a used env raised {type(e).__name__}: {str(e)[:160]}", None)
+            break
+        ctx.evaluation()
+        ctx.count("c19_env_stream_checks")
+        sigk = dict(kind="envcopy", env=name, how="pickle", what="random_stream", used=k > 0)
+        if not same_td(ctx, sigk, want, nxt, f"(control) next batch of the original after {k} batches"):
+            break
+        if not same_td(ctx, sigk, want, got, f"next batch of an env pickled after serving {k} batches (the original serves another one)"):
+            break
+        torch.manual_seed(seed + 11)
+        for _ in range(k):
+            env.generator(batch_size=[2])
+        env_c = copy.deepcopy(env)
+        nxt2 = env.generator(batch_size=[3])
+        ctx.evaluation()
+        ctx.count("c19_env_stream_checks")
+        if not same_td(ctx, dict(sigk, how="deepcopy", side="original"), want, nxt2, f"next batch of the ORIGINAL env after a deep copy was taken (history of {k} batches): the copy disturbed it"):
+            break
+        del env_c
     ctx.nontrivial_case(dict(c=case))
 
 
